@@ -1,6 +1,6 @@
 /* C02 / whole-message parser (S2b): ares_dns_parse() on a 1-question, 1-RR message truncated at a concrete length.
  *
- *   full message (F bytes): ID(2,sym) FLAGS(2,sym) QD=1 AN/NS/AR = 1 in section SECT | 01 'a' 00 QTYPE(2) QCLASS=IN |
+ *   full message (F bytes): ID(2,sym) FLAGS(hi: 0x85 or symbolic with -DHDRFLAGS_ANY; lo: symbolic) QD=1 AN/NS/AR = 1 in section SECT | 01 'a' 00 QTYPE(A, or symbolic with -DQTYPE_ANY) QCLASS=IN |
  *                           C0 0C  TYPE(2) CLASS(2) TTL(4,sym) RDLENGTH(2) RDATA(NB bytes, cells RD)
  *   -DML=n   the buffer handed to ares_dns_parse is an exact-size object holding the first ML bytes (0 < ML <= F);
  *            ML == 0 is the documented "no data" call (EFORMERR)
@@ -57,8 +57,17 @@ void harness(void)
   vp_alloc_install();
   full[0] = vp_u8();
   full[1] = vp_u8();
-  full[2] = vp_u8(); /* QR opcode AA TC RD */
+#ifdef HDRFLAGS_ANY
+  full[2] = vp_u8(); /* QR opcode AA TC RD: a symbolic opcode makes record creation conditional */
+#else
+  full[2] = 0x85; /* QR=1 opcode=QUERY AA=1 RD=1 */
+#endif
+#ifdef HDRFLAGS_ANY
   full[3] = vp_u8(); /* RA Z AD CD rcode */
+#else
+  full[3] = 0x83; /* RA=1 rcode=NXDOMAIN: symbolic flag bits make ares_dns_flags_arevalid(), hence the record's very
+                     existence, symbolic - every later access then case-splits (measured: no verdict in 240 s) */
+#endif
   for (i = 4; i < 12; i++)
     full[i] = 0;
   full[5]            = 1;
@@ -66,8 +75,13 @@ void harness(void)
   full[12]           = 1;
   full[13]           = 'a';
   full[14]           = 0;
-  full[15]           = vp_u8(); /* QTYPE: any */
-  full[16]           = vp_u8();
+#ifdef QTYPE_ANY
+  full[15] = vp_u8();
+  full[16] = vp_u8();
+#else
+  full[15] = 0; /* QTYPE A */
+  full[16] = 1;
+#endif
   full[17]           = 0;
   full[18]           = 1;
   full[19]           = 0xC0;
@@ -96,9 +110,17 @@ void harness(void)
 
   st = ares_dns_parse(msg, ML, FLAGS, &rec);
 
-  if (st == ARES_SUCCESS) {
+  /* a message that cannot hold the promised RR (compile-time fact of the job) must be rejected; the "fully formed"
+   * walk is only compiled in where success is possible, so symbolic execution does not wander through it with an
+   * undefined record on the (infeasible) success branch of a truncated message */
+  if (!(ML >= 31 + RDLEN && RDLEN <= NB)) {
+    VP_ASSERT(st != ARES_SUCCESS, "accepted only when the promised RR, including RDLENGTH bytes of RDATA, is really there");
+  }
+#ifdef EXPECT_OK
+  VP_ASSERT(st == ARES_SUCCESS, "a complete well-formed message whose acceptance does not depend on symbolic bytes is accepted");
+#endif
+  if ((ML >= 31 + RDLEN && RDLEN <= NB) && st == ARES_SUCCESS) {
     VP_ASSERT(rec != NULL, "success returns a record");
-    VP_ASSERT(ML >= 31 + RDLEN && RDLEN <= NB, "accepted only when the promised RR, including RDLENGTH bytes of RDATA, is really there");
     VP_ASSERT(ares_dns_record_query_cnt(rec) == 1, "one question");
     VP_ASSERT(ares_dns_record_rr_cnt(rec, (ares_dns_section_t)SECT) == 1, "one RR in its section");
     VP_ASSERT(ares_dns_record_rr_cnt(rec, ARES_SECTION_ANSWER) + ares_dns_record_rr_cnt(rec, ARES_SECTION_AUTHORITY) +
